@@ -559,6 +559,10 @@ def family(tier, seed, nested_full=False):
             if tree in ("nested_sec", "deep") and (st["select"] in ("where", "statn", "statn_lag", "statn_sparse") or st["weigh"] == "target"):
                 # the shared tables name tickers outside these sub-strategies' declared universe
                 continue
+            if st.get("flow") is not None and capital != 1000000.0:
+                # flows are sized for a 1e6 book: keep them in proportion (a withdrawal larger than
+                # the fund is not a well-formed schedule)
+                st = dict(st, flow=float(st["flow"]) * capital / 1000000.0)
             sp = {"tree": tree, "stack": st, "data": data, "alpha": alpha, "integer": integer, "capital": capital, "rng": seed % 4}
             sp.update(cost)
             specs.append(sp)
